@@ -308,6 +308,11 @@ class GenericPlainRegistry(Generic[QuantityT, UnitT], metaclass=RegistryMeta):
         #: e.g: 'hz' - > set('Hz', )
         self._units_casei: dict[str, set[str]] = defaultdict(set)
 
+        #: Names of the prefixed units that get_name registered on the fly.
+        #: They are definitions (conversion needs them) but not spellings:
+        #: name parsing does not read them.
+        self._lazy_units: set[str] = set()
+
         #: Map prefix name (string) to its definition (PrefixDefinition).
         self._prefixes: dict[str, PrefixDefinition] = {"": PrefixDefinition("", 1)}
 
@@ -657,10 +662,11 @@ class GenericPlainRegistry(Generic[QuantityT, UnitT], metaclass=RegistryMeta):
         if name_or_alias == "dimensionless":
             return ""
 
-        try:
-            return self._units[name_or_alias].name
-        except KeyError:
-            pass
+        if name_or_alias not in self._lazy_units:
+            try:
+                return self._units[name_or_alias].name
+            except KeyError:
+                pass
 
         candidates = self.parse_unit_name(name_or_alias, case_sensitive)
         if not candidates:
@@ -679,21 +685,26 @@ class GenericPlainRegistry(Generic[QuantityT, UnitT], metaclass=RegistryMeta):
                 )
 
             name = prefix + unit_name
-            symbol = self.get_symbol(name, case_sensitive)
-            prefix_def = self._prefixes[prefix]
-            self._units[name] = UnitDefinition(
-                name,
-                symbol,
-                tuple(),
-                prefix_def.converter,
-                self.UnitsContainer({unit_name: 1}),
-            )
+            if name not in self._units:
+                symbol = self.get_symbol(name, case_sensitive)
+                prefix_def = self._prefixes[prefix]
+                self._units[name] = UnitDefinition(
+                    name,
+                    symbol,
+                    tuple(),
+                    prefix_def.converter,
+                    self.UnitsContainer({unit_name: 1}),
+                )
+                self._lazy_units.add(name)
             return prefix + unit_name
 
         return unit_name
 
     def get_symbol(self, name_or_alias: str, case_sensitive: bool | None = None) -> str:
         """Return the preferred alias for a unit."""
+        if name_or_alias in self._units and name_or_alias not in self._lazy_units:
+            return self._units[name_or_alias].symbol
+
         candidates = self.parse_unit_name(name_or_alias, case_sensitive)
         if not candidates:
             raise UndefinedUnitError(name_or_alias)
@@ -1144,7 +1155,7 @@ class GenericPlainRegistry(Generic[QuantityT, UnitT], metaclass=RegistryMeta):
                     if len(name) == 1:
                         continue
                 if case_sensitive:
-                    if name in self._units:
+                    if name in self._units and name not in self._lazy_units:
                         yield (
                             self._prefixes[prefix].name,
                             self._units[name].name,
